@@ -162,6 +162,17 @@ PROPS["C10"] = dict(
                  "the generator keeps a delivery and ANOTHER thread's register/unregister of the same signal apart (no defined candidate set for that race); C14 covers that race for data races"],
     level_text="exploration of generated interest sets, delivery points and schedules against an obligation model; order of handler invocations is left free, as in the documentation",
     level_note=_MT_NOTE, technique=_MT_TECH, design_ref="DESIGN.md section 3 (C10)")
+WAIT_LABELS = ["stranger_terminates", "two_changes_queued_for_one_child", "pid_reuse", "spawned_child_exits_at_once", "unregister_from_handler", "kill_helper",
+               "kill_helper_after_death", "stop_continue", "two_owner_threads", "register_for_existing_child", "cross_thread_delivery", "method_epoll_timerfd",
+               "method_epoll", "method_ppoll", "method_poll", "unregister_with_status_pending", "three_or_more_changes_in_one_reap", "stranger_before_any_interest"]
+PROPS["C11"] = dict(
+    level="exploration", labels=WAIT_LABELS, engine="wait",
+    campaigns=[("wait", [], 60000, 1200000)],
+    rule="cases = (program bytes, schedule bytes): 1-2 owner loops, up to 6 wait interests each, a population of up to 24 VIRTUAL children (fork / wait4 / kill interposed; the harness raises real SIGCHLD signals in whichever thread causes a state change): children spawned through iv_wait_interest_register_spawn (living on, or exiting inside fork() before the interest is in the tree), children nobody watches, interests registered later for existing children, stop / continue / exit / kill sequences with several changes queued before the loop runs, pid reuse after a reap, unregister from the handler or at any time, the kill helper with TERM/KILL/STOP/CONT on live and on already reaped children; what wait4() hands to the library is recorded and is the reference: every interest must be told exactly the reaped changes of its child, in order, in its registering thread, nothing after unregister, all of them by the time every thread is parked; every queued change gets reaped while any interest is registered; kill() never sees a pid whose termination was reaped and the helper answers -ESRCH then; non-trivial = a stranger terminated, or >=2 changes were queued for one child, or a pid was reused; distinct = hash(program actions)",
+    assumptions=["children are virtual: process creation, reaping and signalling are interposed at the libc boundary; the real-fork path of the spawn helper (child side) is not executed here",
+                 "with two loops, registering an interest for an already existing child is not generated (its race with a concurrent reap has no defined outcome)"],
+    level_text="exploration of generated child populations, state-change sequences and schedules; the reference is what the library itself was handed by wait4, so kernel merging of states cannot cause a mismatch",
+    level_note=_MT_NOTE, technique=_MT_TECH, design_ref="DESIGN.md section 3 (C11)")
 
 ENGINES = [
     dict(name="vfz", path="harness/vfz.c", serves_properties=["C01", "C02", "C03", "C04", "C06", "C07"],
@@ -177,6 +188,7 @@ ENGINES.append(dict(name="pump", path="harness/t_pump.c", serves_properties=["C1
 ENGINES.append(dict(name="vsched", path="harness/vsched.c", serves_properties=["C08", "C12", "C13"], kind_free_text="engine B: baton scheduler over real pthreads with generated schedules (second choice stream), deadlock/quiescence detection, virtual time"))
 ENGINES.append(dict(name="mt", path="harness/t_mt.c", serves_properties=["C08", "C12", "C13"], kind_free_text="multi-threaded scenario programs: owners, posters, work pool, iv_thread children"))
 ENGINES.append(dict(name="sig", path="harness/t_sig.c", serves_properties=["C10"], kind_free_text="iv_signal scenarios on engine B with an obligation-model oracle"))
+ENGINES.append(dict(name="wait", path="harness/t_wait.c", serves_properties=["C11"], kind_free_text="iv_wait scenarios with virtual children (fork/wait4/kill interposed) on engine B"))
 NOT_APPLICABLE = {}
 
 for _pid, _txt in {
